@@ -334,14 +334,14 @@ def run(chk):
     if chk.pid == "C27":
         a = auth_scripts(hists["auth"], rng)
         log("[gen] %d TLC state-cover sequences (auth)" % len(a))
-        run_and_validate(chk, _sample(rng, a, 900 * k), "tlc-state-cover-auth")
+        run_and_validate(chk, _sample(rng, a, 1300 * k), "tlc-state-cover-auth")
         run_and_validate(chk, random_auth(rng, 250 * k), "random-auth")
     elif chk.pid == "C28":
         ad = admit_scripts(hists["admit"], rng)
         rs = rate_scripts(hists["rate"], rng, False)
         rf = rate_scripts(hists["ratefetch"], rng, True)
         log("[gen] TLC state-cover sequences: %d admit, %d rate(store), %d rate(fetch)" % (len(ad), len(rs), len(rf)))
-        run_and_validate(chk, _sample(rng, ad, 700 * k), "tlc-state-cover-admit")
+        run_and_validate(chk, _sample(rng, ad, 600 * k), "tlc-state-cover-admit")
         run_and_validate(chk, rs + rf, "tlc-state-cover-rate")
         run_and_validate(chk, random_admit(rng, 200 * k), "random-admit")
         run_and_validate(chk, random_rate(rng, 120 * k), "random-rate")
